@@ -150,4 +150,128 @@ theorem chunk_fold (S : RS) (a b : List Int) (hfn : S.cfg.fn = useCopy ∨ S.cfg
     congr 1
     omega
 
+/-- Every kernel: after a call, delayBuf[0 .. inputDelay) holds the last inputDelay input samples (resampler.c:212). -/
+theorem resampler_dbuf (S : RS) (xs : List Int) (hI : Inv S) (hlen : S.cfg.fsIn ≤ xs.length) (hx : ∀ v ∈ xs, I16 v) :
+    ∀ r, resampler S xs = .ok r → r.1.delayBuf.take S.cfg.inputDelay = xs.drop (xs.length - S.cfg.inputDelay) := by
+  intro r hr
+  have hc := cfgTable_facts _ hI.cfg
+  have hc' := hc
+  simp only [cfgFacts, Bool.and_eq_true, Bool.or_eq_true, decide_eq_true_eq, beq_iff_eq] at hc'
+  obtain ⟨⟨⟨⟨⟨⟨⟨h1, h2⟩, h3⟩, h4⟩, h5⟩, h6⟩, h7⟩, _⟩ := hc'
+  have hfl : S.sFIR.length = 36 := hI.fir
+  have hdl : S.delayBuf.length = 48 := hI.dbuf
+  unfold resampler at hr
+  simp only [] at hr
+  rw [if_neg (by omega), if_neg (by omega)] at hr
+  obtain ⟨first, hw1, hl1, hm1⟩ := window_ok_len (l := xs) (i := 0) (n := S.cfg.fsIn - S.cfg.inputDelay) (by omega)
+    (by simp only [Int.toNat_zero]; omega)
+  obtain ⟨db, hb1, hdbl, hdbm⟩ := blit_ok (l := S.delayBuf) (src := first) (off := S.cfg.inputDelay) (by omega)
+  obtain ⟨in1, hw2, hl2, hm2⟩ := window_ok_len (l := db) (i := 0) (n := S.cfg.fsIn) (by omega)
+    (by simp only [Int.toNat_zero]; omega)
+  obtain ⟨in2, hw3, hl3, hm3⟩ := window_ok_len (l := xs) (i := ((S.cfg.fsIn - S.cfg.inputDelay : Nat) : Int))
+    (n := xs.length - S.cfg.fsIn) (by omega) (by simp only [Int.toNat_natCast]; omega)
+  have hdb16 : ∀ v ∈ db, I16 v := by
+    intro v hv
+    rcases hdbm v hv with h | h
+    · exact hI.dbuf16 v h
+    · exact hx v (hm1 v h)
+  obtain ⟨S1, o1, hk1, hc1, hf1, hd1, _, _⟩ := kernel_ok { S with delayBuf := db } in1 hc hfl
+    (fun v hv => hdb16 v (hm2 v hv))
+  obtain ⟨S2, o2, hk2, hc2, hf2, hd2, _, _⟩ := kernel_ok S1 in2 (by rw [hc1]; exact hc) hf1
+    (fun v hv => hx v (hm3 v hv))
+  have hw4 := window_ok (l := xs) (i := (xs.length : Int) - (S.cfg.inputDelay : Int)) (n := S.cfg.inputDelay)
+    (by omega) (by omega)
+  have hS2d : S2.delayBuf = db := by rw [hd2, hd1]
+  have hT : ((xs.length : Int) - (S.cfg.inputDelay : Int)).toNat = xs.length - S.cfg.inputDelay := by omega
+  rw [hT] at hw4
+  have hsrc : (xs.drop (xs.length - S.cfg.inputDelay)).take S.cfg.inputDelay = xs.drop (xs.length - S.cfg.inputDelay) :=
+    List.take_of_length_le (by rw [List.length_drop]; omega)
+  rw [hsrc] at hw4
+  have hl : (xs.drop (xs.length - S.cfg.inputDelay)).length = S.cfg.inputDelay := by rw [List.length_drop]; omega
+  have hb2 : blit S2.delayBuf 0 (xs.drop (xs.length - S.cfg.inputDelay)) =
+      .ok (S2.delayBuf.take 0 ++ xs.drop (xs.length - S.cfg.inputDelay) ++
+        S2.delayBuf.drop (0 + (xs.drop (xs.length - S.cfg.inputDelay)).length)) := by
+    unfold blit; rw [if_pos (by rw [hS2d, hl]; omega)]
+  simp only [hw1, hb1, hw2, hw3, hk1, hk2, hw4, hb2, Res.bind_ok] at hr
+  injection hr with hr; subst hr
+  show (S2.delayBuf.take 0 ++ xs.drop (xs.length - S.cfg.inputDelay) ++
+        S2.delayBuf.drop (0 + (xs.drop (xs.length - S.cfg.inputDelay)).length)).take S.cfg.inputDelay = _
+  simp only [List.take_zero, List.nil_append]
+  rw [List.take_append_of_le_length (l₁ := xs.drop (xs.length - S.cfg.inputDelay)) (by omega)]
+  exact List.take_of_length_le (by omega)
+
+/-- The streams of consecutive calls concatenate: no sample is lost or duplicated at a call boundary, whatever the
+    kernel. -/
+theorem stream_concat (S S1 : RS) (a b : List Int) (hc : S1.cfg = S.cfg)
+    (hd : S1.delayBuf.take S.cfg.inputDelay = a.drop (a.length - S.cfg.inputDelay))
+    (ha : S.cfg.inputDelay ≤ a.length) (hb : S.cfg.inputDelay ≤ b.length) :
+    stream S (a ++ b) = stream S a ++ stream S1 b := by
+  simp only [stream, hc, hd, List.length_append]
+  have e : a.length + b.length - S.cfg.inputDelay = a.length + (b.length - S.cfg.inputDelay) := by omega
+  rw [e, List.take_append, List.take_of_length_le (l := a) (by omega)]
+  have e2 : a.length + (b.length - S.cfg.inputDelay) - a.length = b.length - S.cfg.inputDelay := by omega
+  rw [e2]
+  simp only [List.append_assoc]
+  congr 1
+  rw [← List.append_assoc, List.take_append_drop]
+
+/-- delayBuf after the copy of resampler.c:192. -/
+def dbufAfterCopy (S : RS) (xs : List Int) : List Int :=
+  S.delayBuf.take S.cfg.inputDelay ++ xs.take (S.cfg.fsIn - S.cfg.inputDelay) ++
+    S.delayBuf.drop (S.cfg.inputDelay + (xs.take (S.cfg.fsIn - S.cfg.inputDelay)).length)
+
+/-- Every kernel: one call = the kernel on the first millisecond of the delayed stream, then on the rest of it, then
+    the copy of the last inputDelay input samples into delayBuf (resampler.c:189-212). -/
+theorem resampler_via_stream (S : RS) (xs : List Int) (hd : S.cfg.inputDelay ≤ S.cfg.fsIn) (hf : S.cfg.fsIn ≤ 48)
+    (hdl : S.delayBuf.length = 48) (hlen : S.cfg.fsIn ≤ xs.length) :
+    resampler S xs =
+      (kernel { S with delayBuf := dbufAfterCopy S xs } ((stream S xs).take S.cfg.fsIn)).bind fun r1 =>
+      (kernel r1.1 ((stream S xs).drop S.cfg.fsIn)).bind fun r2 =>
+      (blit r2.1.delayBuf 0 (xs.drop (xs.length - S.cfg.inputDelay))).bind fun db2 =>
+      .ok ({ r2.1 with delayBuf := db2 }, r1.2 ++ r2.2) := by
+  unfold resampler
+  simp only []
+  rw [if_neg (by omega), if_neg (by omega)]
+  have hw1 := window_ok (l := xs) (i := 0) (n := S.cfg.fsIn - S.cfg.inputDelay) (by omega)
+    (by simp only [Int.toNat_zero]; omega)
+  simp only [Int.toNat_zero, List.drop_zero] at hw1
+  have hfl : (xs.take (S.cfg.fsIn - S.cfg.inputDelay)).length = S.cfg.fsIn - S.cfg.inputDelay := by
+    rw [List.length_take]; omega
+  have hb1 : blit S.delayBuf S.cfg.inputDelay (xs.take (S.cfg.fsIn - S.cfg.inputDelay)) = .ok (dbufAfterCopy S xs) := by
+    unfold blit dbufAfterCopy; rw [if_pos (by rw [hfl]; omega)]
+  have hdbl : (dbufAfterCopy S xs).length = 48 := by
+    simp only [dbufAfterCopy, List.length_append, List.length_take, List.length_drop]; omega
+  have hw2 := window_ok (l := dbufAfterCopy S xs) (i := 0) (n := S.cfg.fsIn) (by omega)
+    (by simp only [Int.toNat_zero]; omega)
+  simp only [Int.toNat_zero, List.drop_zero] at hw2
+  have hw3 := window_ok (l := xs) (i := ((S.cfg.fsIn - S.cfg.inputDelay : Nat) : Int)) (n := xs.length - S.cfg.fsIn)
+    (by omega) (by simp only [Int.toNat_natCast]; omega)
+  simp only [Int.toNat_natCast] at hw3
+  have hw4 := window_ok (l := xs) (i := (xs.length : Int) - (S.cfg.inputDelay : Int)) (n := S.cfg.inputDelay)
+    (by omega) (by omega)
+  have hT : ((xs.length : Int) - (S.cfg.inputDelay : Int)).toNat = xs.length - S.cfg.inputDelay := by omega
+  have hsrc : (xs.drop (xs.length - S.cfg.inputDelay)).take S.cfg.inputDelay = xs.drop (xs.length - S.cfg.inputDelay) :=
+    List.take_of_length_le (by rw [List.length_drop]; omega)
+  rw [hT, hsrc] at hw4
+  have e1 : (dbufAfterCopy S xs).take S.cfg.fsIn = (stream S xs).take S.cfg.fsIn := by
+    simp only [dbufAfterCopy, stream, List.take_append, List.length_take, List.length_append, List.take_take]
+    have h1 : min S.cfg.inputDelay S.delayBuf.length = S.cfg.inputDelay := by omega
+    have h2 : min (S.cfg.fsIn - S.cfg.inputDelay) xs.length = S.cfg.fsIn - S.cfg.inputDelay := by omega
+    rw [h1, h2]
+    have h4 : min (S.cfg.fsIn - S.cfg.inputDelay) (S.cfg.fsIn - S.cfg.inputDelay) = S.cfg.fsIn - S.cfg.inputDelay := by omega
+    have h5 : min (S.cfg.fsIn - S.cfg.inputDelay) (xs.length - S.cfg.inputDelay) = S.cfg.fsIn - S.cfg.inputDelay := by omega
+    have h6 : min S.cfg.fsIn S.cfg.inputDelay = S.cfg.inputDelay := by omega
+    simp only [h4, h5, h6]
+    have h7 : S.cfg.fsIn - (S.cfg.inputDelay + (S.cfg.fsIn - S.cfg.inputDelay)) = 0 := by omega
+    rw [h7, List.take_zero, List.append_nil]
+  have e2 : (xs.drop (S.cfg.fsIn - S.cfg.inputDelay)).take (xs.length - S.cfg.fsIn) = (stream S xs).drop S.cfg.fsIn := by
+    simp only [stream]
+    have h1 : min S.cfg.inputDelay S.delayBuf.length = S.cfg.inputDelay := by omega
+    rw [List.drop_append, List.drop_of_length_le (l := S.delayBuf.take S.cfg.inputDelay) (i := S.cfg.fsIn)
+      (by rw [List.length_take]; omega), List.nil_append, List.length_take, h1, List.drop_take]
+    have h2 : xs.length - S.cfg.inputDelay - (S.cfg.fsIn - S.cfg.inputDelay) = xs.length - S.cfg.fsIn := by omega
+    rw [h2]
+  simp only [hw1, hb1, hw2, hw3, hw4, Res.bind_ok, e1, e2]
+  rfl
+
 end OpusProofs.SilkResamp
